@@ -54,6 +54,24 @@ Definition agrees (c : case) : bool :=
       list_eqb Nat.eqb (pending_of tr (length (regs s))) pend
   end.
 
+(* C03, last sentence, for observe registrations (class 9, judged on the OBSERVED history and the observed
+   final liveness map): a registration i that succeeded (RegRet i 0) and was never cancelled must still be
+   registered at the end when a later registration with the same token was refused as a duplicate
+   (RegRet j 3): the second request is rejected rather than displacing the first. *)
+Definition reg_ok_of (tr : trace) (i : nat) : bool :=
+  existsb (fun x => existsb (fun o => match o with RegRet k c => Nat.eqb k i && (c =? 0) | _ => false end) (snd x)) tr.
+Definition cancelled_of (tr : trace) (i : nat) : bool :=
+  existsb (fun x => existsb (fun o => match o with CanRet k _ => Nat.eqb k i | _ => false end) (snd x)) tr.
+Definition refused_dup_of (tr : trace) (j : nat) : bool :=
+  existsb (fun x => existsb (fun o => match o with RegRet k c => Nat.eqb k j && (c =? 3) | _ => false end) (snd x)) tr.
+Definition displaced (tr : trace) (lm : list bool) : bool :=
+  let toks := reg_tokens tr in
+  existsb (fun i =>
+    reg_ok_of tr i && negb (cancelled_of tr i) && negb (nth i lm true) &&
+    existsb (fun j => Nat.ltb i j && refused_dup_of tr j &&
+                      bytes_eqb (nth i toks []) (nth j toks [])) (seq 0 (length toks)))
+    (seq 0 (length toks)).
+
 (* property classes (bin/props.py): 1 not-fresher-delivered, 2 foreign-token, 3 registration-outcome,
    4 delivered-after-end, 5 fresher-refused (predicate only), 6 malformed case *)
 Definition pclass (c : case) : N :=
@@ -65,7 +83,10 @@ Definition pclass (c : case) : N :=
         else if Z.land bits (Z.lnot spec) =? 0 then 5%N else 1%N
       else 0%N
   | Hist wire evs outs lm pend =>
-      if Nat.eqb (length evs) (length outs) then c08_class (combine evs outs) else 6%N
+      if Nat.eqb (length evs) (length outs) then
+        let c := c08_class (combine evs outs) in
+        if N.eqb c 0 then (if displaced (combine evs outs) lm then 9%N else 0%N) else c
+      else 6%N
   end.
 
 Definition mismatches (cs : list case) : list N := bad_indices (fun c => negb (agrees c)) cs.
